@@ -15,6 +15,7 @@ import RbV.Thm.GenSrcPwModes
 import RbV.Thm.GenSrcPwCustom
 import RbV.Thm.GenSrcPwKeeps
 import RbV.Thm.GenSrcPwColumn
+import RbV.Thm.GenSrcPwColStep
 /-!
 # C01 — pairwise alignment is optimal and its reported path achieves the reported score
 
@@ -742,6 +743,34 @@ theorem column_reset_loop_source_eq_model (w : Nat → Nat → Int) (iT dT snT s
       l'.length = l.length ∧ (∀ t, i ≤ t → t < i + k → l'.getD t 0 = minScore) ∧
       (∀ t, (t < i ∨ i + k ≤ t) → l'.getD t 0 = l.getD t 0) :=
   GenSrcPwColumn.reset_loop w iT dT snT sn0T c hc k i a l hS hl hik
+
+/-- **A whole column of the main loop (translated `custom_for3`) = the `i = 0` block of the mirror, `xclip_score`, then the inner
+loop from an explicit start state** (one more piece of `custom_fill_source_eq_model`; for every tie-break).  On every aligner
+state of the right shape (`Dims`), `1 ≤ j ≤ n`: the translated body of `for j in 1..=n` panics exactly when `rowJ0T T …`
+(= `rowJ0C` of `Model/PairwiseFillI32.lean` with the `Sn` tie-break as a parameter: `D[curr][0]` by `edgeC`, `S[curr][0]`, the
+`j == n` branch, `Sn[0]`, `Ly[0]`, codes) or `xclipC` is `none`, and otherwise continues as the translated inner loop
+`for i in 1..m + 1` (with `q = y[j − 1]` and the mirror's `xclip_score`) from the state `startCol a m (j % 2) j r0`: `I[curr][0] =
+MIN_SCORE`, `D[curr][0] = r0.d`, `S[curr][0] = r0.s`, **`S[curr][1..=m]` reset to `MIN_SCORE`** (`resetL`: the reset loop), `Sn[0]`,
+`Ly[0]`, cell `(0, j) = cellOf r0.t.ts START r0.t.td` — nothing else changed.
+**Still missing for `custom_fill_source_eq_model`**: `ColInv (startCol …) … 0 pc [r0]` from the finished previous column (with
+`col[m].s = col[m].xm`, `Lx[j'] = 0` for columns not yet started) to chain this with `custom_fill_source_eq_model_partial`; the
+induction over `j`; the column-0 initialisation; the two post-loops. -/
+theorem column_block_source_eq_model_partial (w : Nat → Nat → Int) (T : GenSrcPwCustom.Ties) (a : RbV.Gen.SrcPwTypes.Aligner)
+    (x y : List Nat) (m n j : Nat) (hd : GenSrcPwCustom.Dims a m n) (hx : x.length = m) (hy : y.length = n) (hj : 1 ≤ j)
+    (hjn : j ≤ n) :
+    RbV.Gen.SrcPwCustom.custom_for3 w T.iT T.dT T.snT T.sn0T x y m n a j =
+      GenSrcPwCustom.ofOpt (GenSrcPwColStep.rowJ0T T (GenSrcPwCustom.scOf w a) (GenSrcPwCustom.clOf a) m n j (GenSrcPwColStep.row0P a))
+        >>= fun r0 =>
+      GenSrcPwCustom.ofOpt (GenSrcPwColStep.xclipO (GenSrcPwCustom.scOf w a) (GenSrcPwCustom.clOf a) j) >>= fun xc =>
+        List.foldlM (RbV.Gen.SrcPwCustom.custom_for5 w T.iT T.dT T.snT T.sn0T x m n j (j % 2) (1 - j % 2) (y.getD (j - 1) 0) xc)
+          (GenSrcPwColStep.startCol a m (j % 2) j r0) (List.range' 1 m) :=
+  GenSrcPwColStep.block_eq w T a x y m n j hd hx hy hj hjn
+
+/-- the model side of that block is the mirror's: `rowJ0T` with the pinned tie-break is `rowJ0C`, `xclipO` is `xclipC` -/
+theorem column_block_model_is_mirror (sc : Sc) (cl : Clip) (x y : List Nat) (j : Nat) (prev0 : RbV.Model.PairwiseFill.Row) :
+    GenSrcPwColStep.rowJ0T GenSrcPwCustom.pinned sc cl x.length y.length j prev0 = RbV.Model.PairwiseFill.rowJ0C sc cl x y j prev0 ∧
+    GenSrcPwColStep.xclipO sc cl j = RbV.Model.PairwiseFill.xclipC sc cl j :=
+  ⟨GenSrcPwColStep.rowJ0T_pinned sc cl x y j prev0, GenSrcPwColStep.xclipO_eq sc cl j⟩
 
 end SourceText
 
